@@ -1534,7 +1534,7 @@ func (e *Env) callSpecFn(sf *SpecFn, ex *ast.CallExpr) (SymVal, error) {
 		if err != nil {
 			return SymVal{}, err
 		}
-		if id, ok := a.(*ast.Ident); ok && v.K == KStruct {
+		if id, ok := a.(*ast.Ident); ok && v.K == KStruct && sf.Params[i].Type == "any" {
 			// a struct variable that lives in memory is passed to spec functions by reference,
 			// so that ghost state attached to the object can be named
 			if r, t, ok := c.addrOfVar(id.Name); ok {
@@ -1644,9 +1644,30 @@ func selectPatterns(body, bn string) []string {
 		if strings.Contains(t, "(forall ") || strings.Contains(t, "(exists ") {
 			continue
 		}
-		// prefer innermost: if t contains a nested select mentioning bn, skip t (the nested one will be found)
-		inner := t[8:]
-		if k := strings.Index(inner, "(select "); k >= 0 && strings.Contains(inner[k:], bn) {
+		// prefer innermost: if a proper sub-term of t is itself a read mentioning bn, skip t
+		nested := false
+		for k := 1; k+8 < len(t); k++ {
+			if !strings.HasPrefix(t[k:], "(select ") {
+				continue
+			}
+			d2, e2 := 0, -1
+			for j := k; j < len(t); j++ {
+				if t[j] == '(' {
+					d2++
+				} else if t[j] == ')' {
+					d2--
+					if d2 == 0 {
+						e2 = j + 1
+						break
+					}
+				}
+			}
+			if e2 > 0 && strings.Contains(t[k:e2], bn) {
+				nested = true
+				break
+			}
+		}
+		if nested {
 			continue
 		}
 		// other bound variables (of enclosing quantifiers) make the pattern ill-scoped only if they are not in scope; they are.
